@@ -315,7 +315,7 @@ def check(ctx):
 
         def at_exit_t(kind, st, facts):
             cic, csc, cp = st
-            if kind == "return" and (h, False) in facts and not (cic and csc):
+            if kind == "return" and (h, True) not in facts and not (cic and csc):
                 return "an element served from the shared buffer (no yield point in fill()) is returned without the cancellation check + yield pair"
             if kind == "raise:StopAsyncIteration" and ("self._element_yielded", True) not in facts and not cp and (h, True) not in facts:
                 return "an exhausted tee iterator that never yielded ends without a checkpoint"
